@@ -37,7 +37,7 @@ class HistoryRunner:
     """Performs one random operation per call to step(); never raises (failed API calls are part of the history)."""
 
     KINDS = ["create", "create", "delete", "delete", "move", "move_sibling", "move_sibling", "link_add", "link_del", "attr_set", "create_bad",
-             "setlist", "clear", "reqrel_create", "reqrel_del"]
+             "setlist", "clear", "reqrel_create", "reqrel_del", "new_namespace"]
 
     def __init__(self, model, rng: random.Random, savedir=None, kinds: list[str] | None = None):
         self.model, self.rng, self.savedir = model, rng, savedir
@@ -313,6 +313,30 @@ class HistoryRunner:
         self._last = f"{type(o).__name__}({o.uuid}).{attr} = {val!r}"
         setattr(o, attr, val)
         return self._last
+
+    def op_new_namespace(self):
+        """create objects of a plugin whose namespace the fragment may not declare yet (requirements), after
+        activating its viewpoints: the next save() has to rebuild the fragment root with a new namespace map"""
+        for vp in ("org.polarsys.kitalpha.vp.requirements", "org.polarsys.capella.vp.requirements"):
+            try:
+                self.model._loader.activate_viewpoint(vp, "0.12.2")
+            except Exception:  # noqa: BLE001  already active (possibly with another version)
+                pass
+        layer = None
+        for name in ("la", "sa", "oa", "pa"):
+            try:
+                layer = getattr(self.model, name)
+                if layer is not None:
+                    break
+            except Exception:  # noqa: BLE001
+                continue
+        if layer is None:
+            return None
+        self._last = f"{type(layer).__name__}.requirement_modules.create + requirement"
+        mod = layer.requirement_modules.create(long_name=f"m{self.n}")
+        req = mod.requirements.create(long_name=f"r{self.n}")
+        self.pool += [mod, req]
+        return self._last + f" -> {mod.uuid}, {req.uuid}"
 
     def op_save(self):
         if self.savedir is None:
